@@ -377,6 +377,7 @@ impl Sweep for Universe {
             }
             for s in [
                 "", "1", " 12 ", "1E2", "1D2", "1e2", "&H1F", "&h1f", "&17", "12abc", "abc", ".5", "-.5e1", "1e", "1e+", "nan", "inf", "NAN", "infinity", "-inf", "+5", "--5", "1.2.3",
+                "&HD", "&H1D", "&hdd", "&HABC", "&H7FFF", "&HdE", "1D", "&D",
                 "&", "&H", "&HG", "1 2", "1,2", "3.", "-", "+", ".", "1E400", "&H8000", "&HFFFF", "&177777", "12345678901234567890", "é1", "1é", "  -7.25x",
             ] {
                 judge_call("VAL", &[V::s(s)], ctx);
